@@ -4,7 +4,7 @@ The whole space is finite and is enumerated completely: every supported
 protocol version x 4 states x 2 directions.  The remaining known versions are
 reported in the evidence, never judged.
 """
-from vf.runner import use_repo
+from vf.runner import use_repo, ToolError
 from vf import explore, interleave
 
 LEVEL = 'exploration'
@@ -297,7 +297,13 @@ def cold_factory(params):
 def run_cold(ctx, ex):
     bound = 1
     cases = COLD_CASES if ctx.thorough else COLD_CASES[:1] + COLD_CASES[3:]
-    expected = explore.in_child(cold_expected, cases)
+    try:
+        expected = explore.in_child(cold_expected, cases)
+    except ToolError as e:
+        # a reactor cannot even be built alone on this tree: the sequential
+        # walk reports that; nothing to compare a concurrent build with
+        ctx.extra['concurrent_first_use'] = {'skipped': str(e)[:300]}
+        return False
     execs = 0
     for (a, b, state), exp in zip(cases, expected):
         res = ex.explore(ctx, cold_factory,
@@ -317,8 +323,12 @@ def run(ctx):
     import minecraft.networking.connection        # noqa: F401 (before the fork)
     ex = explore.Explorer(memo=False)   # forks its workers before anything runs
     try:
-        run_cold(ctx, ex)           # first: the parent is still cold too
+        cold_ok = run_cold(ctx, ex)  # first: the parent is still cold too
         _run(ctx)
+        if cold_ok is False and not ctx.violations:
+            raise ToolError('the reactors could not be built in a child '
+                            'process although the sequential walk passes: '
+                            '%r' % (ctx.extra.get('concurrent_first_use'),))
         # (tables that already depend on history would make schedules
         # irreproducible: the walk above has reported them)
         if all(k.startswith('collision ') for k in ctx.violations):
